@@ -1,8 +1,9 @@
 """C02 asynchronous timing never changes what lossless pipelines deliver (structural clauses)"""
-from ..rules import delivery
+from ..rules import delivery, flow
 from .common import declare
 
-RULES = ['SINGLE-CONSUMER', 'SERIAL-DRAIN', 'FIFO-END', 'SWAP-ATOMIC', 'ATOMIC-RMW', 'AWAITABLE-SHARE', 'EMIT-SIG']
+RULES = ['SINGLE-CONSUMER', 'SERIAL-DRAIN', 'FIFO-END', 'SWAP-ATOMIC', 'ATOMIC-RMW', 'AWAITABLE-SHARE', 'EMIT-SIG', 'BOUND-PLUMB', 'NOTIFY-ON-FREE', 'ARM-CANCEL',
+         'APPEND-THEN-TEST', 'ARM-ON-FIRST']
 FLOORS = {'SINGLE-CONSUMER': 6, 'SERIAL-DRAIN': 6, 'FIFO-END': 10, 'SWAP-ATOMIC': 6, 'ATOMIC-RMW': 1, 'AWAITABLE-SHARE': 2,
           'EMIT-SIG': 30}
 
@@ -24,7 +25,7 @@ def run(ctx, R):
     R.explanation = ('Scheduling-discipline rules over all coroutine methods of streamz.core/sinks node classes; suspension '
                      'points are yield/await. Decides structural necessary conditions of schedule-independence only.')
     R.not_decided = ['delivery order under every interleaving of several un-awaited producers', 'batch contents']
-    declare(R, delivery.RULES, RULES, FLOORS)
+    declare(R, {**delivery.RULES, **flow.RULES}, RULES, FLOORS)
     M = ctx.model
     core = [c for c in M.nodes if c.module.name in ('streamz.core', 'streamz.sinks')]
     delivery.check_single_consumer(ctx, R, core)
@@ -34,3 +35,5 @@ def run(ctx, R):
     delivery.check_atomic_rmw(ctx, R, [(c, f) for c in core for f in c.methods.values()])
     delivery.check_awaitable_share(ctx, R, core)
     delivery.check_emit_sig(ctx, R, core)
+    flow.check_bound_plumb(ctx, R)        # map_async's slot wait is also what keeps its jobs in arrival order
+    delivery.check_partition_timer(ctx, R)  # partition with a timeout
